@@ -576,9 +576,12 @@ fn inc(rng: &mut Rng, ctx: &mut Ctx) {
         // given (bytes_read == stream position), and no Game End is reported unless its whole payload was there
         if k % 2 == 1 && b.len() > 40 { let raw_end = 15 + u32::from_be_bytes([b[11], b[12], b[13], b[14]]) as usize;
             // cuts: inside the last Game End payload (1 byte in, 1 byte short), and two random positions inside the raw element
-            let elen = r.end.as_ref().map_or(0, |e| e.len()); let mut cuts = vec![15 + (rng.next() as usize) % (raw_end - 15).max(1), 15 + (rng.next() as usize) % (raw_end - 15).max(1)];
+            let elen = r.end.as_ref().map_or(0, |e| e.len());
+            // only cuts that leave the *first* Game End event incomplete (with a duplicated Game End, a cut inside the second copy leaves a finished game)
+            let limit = if r.end.is_some() { raw_end - (if r.double_end { 2 } else { 1 }) * (1 + elen) + elen } else { raw_end - 1 };
+            let mut cuts = vec![15 + (rng.next() as usize) % (limit - 15).max(1), 15 + (rng.next() as usize) % (limit - 15).max(1)];
             if r.end.is_some() && !r.double_end && elen >= 2 { cuts.push(raw_end - elen + 1); cuts.push(raw_end - 1); }
-            for cut in cuts { if cut >= raw_end || cut <= 16 { continue; }
+            for cut in cuts { if cut >= raw_end || cut > limit || cut <= 16 { continue; }
                 let data = b[..cut].to_vec(); let mut fails: Vec<(String, String)> = vec![];
                 let res = std::panic::catch_unwind(std::panic::AssertUnwindSafe(|| -> Result<String, String> {
                     let mut src = Chunked::new(data.clone(), vec![7, 64, 1], None);
